@@ -115,7 +115,7 @@ def feeTransferAmt (supply : Nat) (view : Addr → Nat) (payer gov : Addr) (witn
 
 /-- `chargeCostGas`: version-1 amount `v`, i.e. `v·1e9` base units, against `ONG_TOTAL_SUPPLY_V2` -/
 def feeTransfer (view : Addr → Nat) (payer gov : Addr) (witness : Bool) (v : UInt64) : FeeRes :=
-  feeTransferAmt totalSupplyV2 view payer gov witness (v.toNat * unit)
+  feeTransferAmt totalSupplyV2 view payer gov witness (unit * v.toNat)
 
 def calcGasByCodeLen (codeLen : Nat) (codeGas : UInt64) : UInt64 :=
   UInt64.ofNat (codeLen / perUnitCodeLen) * codeGas
